@@ -82,6 +82,15 @@ def check(ctx):
     pts.update({0, 1, -1})
     pts |= {p for p in evalexpr.boundaries(f)}
     pts = sorted(pts)
+    # the attributes a fresh Integer object starts with (its __init__, evaluated; the base-class constructor call is skipped)
+    icls6 = model.cls(OER, 'Integer')
+    init6 = icls6.find_method('__init__')[1]
+    try:
+        _r, ienv = evalexpr.run_function(init6, {flow.param_names(init6)[1]: 'x'}, skip_calls=True)
+    except evalexpr.Unsupported as e:
+        raise AnalysisError('oer.Integer.__init__ is not evaluable: %s' % e)
+    init_env = {k: v_ for k, v_ in ienv.items() if isinstance(k, str) and k.startswith('self.')}
+    init_env.setdefault('self.has_extension_marker', False)
     cells = 0
     bad = None
     cant = None
@@ -90,8 +99,8 @@ def check(ctx):
             if hi < lo:
                 continue
             cells += 1
-            env = {'minimum': lo, 'maximum': hi, 'has_extension_marker': False, 'self.length': None, 'self.fmt': None, 'self.signed': True,
-                   'self.has_extension_marker': False}
+            env = dict(init_env)
+            env.update({'minimum': lo, 'maximum': hi, 'has_extension_marker': False})
             try:
                 _r, out = evalexpr.run_function(f, env)
             except evalexpr.Unsupported as e:
@@ -118,7 +127,8 @@ def check(ctx):
                       (bad[0], bad[1], bad[2], bad[3], bad[6], ('%d octet(s), %s' % (bad[4], 'signed' if bad[5] else 'unsigned')) if bad[4] else 'the variable-length form'),
                       stmt='integer width table')
     for extra in ({'has_extension_marker': True}, {'minimum': 'MIN'}, {'maximum': 'MAX'}):
-        env = {'minimum': 0, 'maximum': 10, 'has_extension_marker': False, 'self.length': None, 'self.fmt': None, 'self.signed': True, 'self.has_extension_marker': False}
+        env = dict(init_env)
+        env.update({'minimum': 0, 'maximum': 10, 'has_extension_marker': False})
         env.update(extra)
         try:
             _r, out = evalexpr.run_function(f, env)
@@ -130,6 +140,33 @@ def check(ctx):
         if not ok:
             ctx.violation('C06.R1', OER, f, Model.qual(f), 'an INTEGER with %s must use the variable-length form (X.696 10: only non-extensible bounded ranges are fixed-size)' % extra,
                           stmt='variable length under %s' % sorted(extra))
+    # a subtype of an already constrained parent (the compilers apply the subtype's range to a copy of the parent's object): MIN / MAX denote the parent's
+    # bounds (X.680 51.4) and the width follows the effective constraint (X.696 10)
+    sub_bad = sub_und = None
+    n_sub = 0
+    for (plo, phi), (lo, hi) in (((0, 70000), ('MIN', 100)), ((-5, 200), (0, 'MAX')), ((0, 255), (200, 'MAX')), ((0, 255), ('MIN', 'MAX')), ((-40000, 40000), ('MIN', 100)),
+                                  ((-40000, 40000), (-100, 'MAX')), ((0, 2 ** 32 - 1), ('MIN', 65535)), ((0, 255), (10, 20))):
+        elo, ehi = (plo if lo == 'MIN' else lo), (phi if hi == 'MAX' else hi)
+        try:
+            env = dict(init_env)
+            env.update({'minimum': plo, 'maximum': phi, 'has_extension_marker': False})
+            _r, out = evalexpr.run_function(f, env)
+            env = {k: v_ for k, v_ in out.items() if isinstance(k, str) and k.startswith('self.')}
+            env.update({'minimum': lo, 'maximum': hi, 'has_extension_marker': False})
+            _r, out = evalexpr.run_function(f, env)
+        except evalexpr.Unsupported as e:
+            sub_und = sub_und or str(e)
+            continue
+        n_sub += 1
+        want_len, want_signed = oracle_width(elo, ehi)
+        got_len, got_fmt = out.get('self.length'), out.get('self.fmt')
+        if not (got_len == want_len and (got_len is None or (got_fmt in FMT and FMT[got_fmt] == (want_len, want_signed)))) and sub_bad is None:
+            sub_bad = 'A ::= INTEGER (%s..%s), B ::= A (%s..%s): the codec selects length=%s fmt=%s for B; the effective constraint %s..%s prescribes %s' % (
+                plo, phi, lo, hi, got_len, got_fmt, elo, ehi, ('%d octet(s), %s' % (want_len, 'signed' if want_signed else 'unsigned')) if want_len else 'the variable-length form')
+    ctx.instance('C06.R1', 'subtypes of a constrained parent: %d (parent, subtype) cases evaluated' % n_sub, 'VIOLATION' if sub_bad else ('ok' if n_sub else 'undecided'), sub_und or '',
+                 nontrivial=n_sub > 0, node=f, file=OER)
+    if sub_bad:
+        ctx.violation('C06.R1', OER, f, Model.qual(f), sub_bad, stmt='integer width of a subtype')
     # decode/encode use fmt+length consistently
     enc = model.func(OER, 'Integer.encode')
     dec = model.func(OER, 'Integer.decode')
